@@ -361,15 +361,13 @@ def parse_eval_blocks(out):
 # known findings
 
 def load_findings(pid):
-    paths = [os.path.join(VERIF, 'known_findings.json')]
-    extra = os.path.join(VERIF, 'known_findings.d')
-    if os.path.isdir(extra):
-        paths += [os.path.join(extra, n) for n in sorted(os.listdir(extra)) if n.endswith('.json')]
+    # known_findings.json is committed and never written at run time; it is assembled from the
+    # per-property fragments in known_findings.d/ by harness/tools/mkdesign.py
     out = []
-    for path in paths:
-        if os.path.exists(path):
-            data = json.load(open(path))
-            out += [f for f in data.get('findings', []) if f.get('property') == pid]
+    path = os.path.join(VERIF, 'known_findings.json')
+    if os.path.exists(path):
+        data = json.load(open(path))
+        out = [f for f in data.get('findings', []) if f.get('property') == pid]
     return out
 
 
